@@ -41,7 +41,7 @@ CLOCKS = [None, None, 1706702400, 1709208000, 1698753600, 1703980800]   # real, 
 
 
 def examples(tier):
-    return 700 if tier == "quick" else 10000
+    return 5600 if tier == "quick" else 70000
 
 
 @st.composite
